@@ -25,6 +25,7 @@ import (
 	"sort"
 	"strings"
 	"sync"
+	"sync/atomic"
 	"time"
 
 	mqtt "github.com/at-wat/mqtt-go"
@@ -33,6 +34,22 @@ import (
 func init() { register("C15", runC15) }
 
 const c15Wait = 30 * time.Second // expires only when something is really stuck
+
+// Once a wait has expired the verdict is settled (every expiry is reported); later waits are short
+// and after a few expiries the remaining scenarios are skipped, so that a broken tree is reported
+// in a minute or two instead of half an hour.
+var c15Expired int32
+
+const c15MaxExpired = 4
+
+func c15WaitDur() time.Duration {
+	if atomic.LoadInt32(&c15Expired) > 0 {
+		return 3 * time.Second
+	}
+	return c15Wait
+}
+
+func c15GiveUp() bool { return atomic.LoadInt32(&c15Expired) >= c15MaxExpired }
 
 // ---------- requests ----------
 
@@ -271,7 +288,8 @@ func (w *c15World) waitWrote(rec *c15Rec) bool {
 	select {
 	case <-rec.wrote:
 		return true
-	case <-time.After(c15Wait):
+	case <-time.After(c15WaitDur()):
+		atomic.AddInt32(&c15Expired, 1)
 		return false
 	}
 }
@@ -291,7 +309,7 @@ func (w *c15World) ack(rec *c15Rec) {
 	}
 }
 
-func (w *c15World) waitDone(rec *c15Rec, d time.Duration) bool {
+func (w *c15World) waitDone(rec *c15Rec) bool {
 	if rec.finished {
 		return true
 	}
@@ -300,7 +318,8 @@ func (w *c15World) waitDone(rec *c15Rec, d time.Duration) bool {
 		rec.finished = true
 		rec.err = err
 		return true
-	case <-time.After(d):
+	case <-time.After(c15WaitDur()):
+		atomic.AddInt32(&c15Expired, 1)
 		return false
 	}
 }
@@ -330,6 +349,7 @@ type c15Out struct {
 	starts   map[string]int
 	nontriv  map[string]bool
 	requests int
+	skipped  int
 }
 
 func (o *c15Out) violation(kind string, detail interface{}) {
@@ -442,6 +462,10 @@ func c15GenHistory(r *rand.Rand, s uint32, n, pAck, pGiven int) []c15Ev {
 
 // c15RunSeq executes a history on a fresh client. natural: keep the library's own start value.
 func c15RunSeq(o *c15Out, s uint32, natural bool, h []c15Ev) error {
+	if c15GiveUp() {
+		o.skipped++
+		return nil
+	}
 	w, err := c15NewWorld(false)
 	if err != nil {
 		return err
@@ -465,7 +489,7 @@ func c15RunSeq(o *c15Out, s uint32, natural bool, h []c15Ev) error {
 		if e.Ack {
 			rec := recs[e.J]
 			w.ack(rec)
-			if !w.waitDone(rec, c15Wait) {
+			if !w.waitDone(rec) {
 				stuck = fmt.Sprintf("request #%d (%s, identifier %d on the wire) did not complete after its acknowledgement", e.J, rec.req.desc(), rec.id)
 				break
 			}
@@ -485,7 +509,7 @@ func c15RunSeq(o *c15Out, s uint32, natural bool, h []c15Ev) error {
 			break
 		}
 		if !e.Req.tracked() {
-			if !w.waitDone(rec, c15Wait) {
+			if !w.waitDone(rec) {
 				stuck = fmt.Sprintf("QoS 0 publish #%d did not return", len(recs)-1)
 				break
 			}
@@ -539,6 +563,10 @@ func c15Descs(h []c15Ev) []string {
 // ---------- family conc ----------
 
 func c15RunConc(o *c15Out, r *rand.Rand, s uint32, progs [][]c15Req) error {
+	if c15GiveUp() {
+		o.skipped++
+		return nil
+	}
 	w, err := c15NewWorld(false)
 	if err != nil {
 		return err
@@ -593,7 +621,7 @@ func c15RunConc(o *c15Out, r *rand.Rand, s uint32, progs [][]c15Req) error {
 			}
 		}
 		for _, rec := range order {
-			if !w.waitDone(rec, c15Wait) {
+			if !w.waitDone(rec) {
 				stuck = fmt.Sprintf("request %s (%s, identifier %d on the wire) did not complete after its acknowledgement", rec.tag, rec.req.desc(), rec.id)
 				break
 			}
@@ -763,12 +791,13 @@ func c15RunBulk(o *c15Out, s uint32, g, per int, qos byte) error {
 			}(recs[i])
 		}
 		close(start)
-		deadline := time.After(2 * c15Wait)
+		deadline := time.After(2 * c15WaitDur())
 	waitAll:
 		for _, rec := range recs {
 			select {
 			case <-rec.wrote:
 			case <-deadline:
+				atomic.AddInt32(&c15Expired, 1)
 				stuck = fmt.Sprintf("request %s never reached the wire", rec.tag)
 				break waitAll
 			}
@@ -781,7 +810,7 @@ func c15RunBulk(o *c15Out, s uint32, g, per int, qos byte) error {
 				w.ack(rec)
 			}
 			for _, rec := range recs {
-				if !w.waitDone(rec, c15Wait) {
+				if !w.waitDone(rec) {
 					stuck = fmt.Sprintf("request %s (identifier %d on the wire) did not complete after its acknowledgement", rec.tag, rec.id)
 					break
 				}
@@ -839,7 +868,8 @@ func c15RunCycle(o *c15Out, s uint32, n int) (bool, error) {
 	stuck := ""
 	select {
 	case <-w.cycleHit:
-	case <-time.After(c15Wait):
+	case <-time.After(c15WaitDur()):
+		atomic.AddInt32(&c15Expired, 1)
 		stuck = "the first request never reached the wire"
 	}
 	issued := 0
@@ -1071,6 +1101,8 @@ func runC15(cfg *runCfg) error {
 	m.Distribution["request_kinds"] = o.kinds
 	m.Distribution["start_counter"] = o.starts
 	m.Distribution["f13_reproduced_in_cycles"] = f13
+	m.Distribution["waits_expired"] = atomic.LoadInt32(&c15Expired)
+	m.Distribution["scenarios_skipped_after_expired_waits"] = o.skipped
 	if err := cf.write(cfg.outDir); err != nil {
 		return err
 	}
